@@ -1238,8 +1238,10 @@ pub fn gen_module(rng: &mut Rng, cfg: &GenCfg) -> Generated {
                 }
                 let elem = if cfg.ref_types && rng.chance(1, 3) { VT::ExternRef } else { VT::FuncRef };
                 let min = if cfg.instantiable { rng.range(2, 5) } else { rng.below(5) };
-                let max = if rng.chance(1, 2) { Some(min + rng.below(5)) } else { None };
                 let is64 = cfg.memory64 && cfg.ref_types && rng.chance(1, 4);
+                // (one maximum in six is the largest a 32-bit limit can be: an encoder that decides on
+                // its own how wide a limit is must not widen it)
+                let max = if rng.chance(1, 2) { Some(if !is64 && rng.chance(1, 6) { 0xffff_ffff } else { min + rng.below(5) }) } else { None };
                 imports.import(&module, &field, EntityType::Table(TableType { element_type: elem.reft(), table64: is64, minimum: min, maximum: max, shared: false }));
                 tables.push(TableInfo { elem, min, is64 });
             }
@@ -1296,8 +1298,8 @@ pub fn gen_module(rng: &mut Rng, cfg: &GenCfg) -> Generated {
     for _ in 0..ntables {
         let elem = if cfg.ref_types && rng.chance(1, 3) { VT::ExternRef } else { VT::FuncRef };
         let min = if cfg.instantiable { rng.range(2, 6) } else { rng.below(6) };
-        let max = if rng.chance(1, 2) { Some(min + rng.below(5)) } else { None };
         let is64 = cfg.memory64 && cfg.ref_types && rng.chance(1, 4);
+        let max = if rng.chance(1, 2) { Some(if !is64 && rng.chance(1, 6) { 0xffff_ffff } else { min + rng.below(5) }) } else { None };
         table_sec.table(TableType { element_type: elem.reft(), table64: is64, minimum: min, maximum: max, shared: false });
         tables.push(TableInfo { elem, min, is64 });
     }
@@ -1314,7 +1316,7 @@ pub fn gen_module(rng: &mut Rng, cfg: &GenCfg) -> Generated {
         let is64 = cfg.memory64 && rng.chance(1, 3);
         let shared = cfg.threads && rng.chance(1, 4);
         let min = if cfg.instantiable { rng.range(1, 2) } else { rng.below(3) };
-        let max = if shared || rng.chance(1, 2) { Some(min + rng.below(4)) } else { None };
+        let max = if shared || rng.chance(1, 2) { Some(if !is64 && rng.chance(1, 6) { 65536 } else { min + rng.below(4) }) } else { None };
         mem_sec.memory(MemoryType { minimum: min, maximum: max, memory64: is64, shared, page_size_log2: None });
         mems.push(MemInfo { is64, shared, min });
     }
@@ -1688,7 +1690,12 @@ pub fn gen_module(rng: &mut Rng, cfg: &GenCfg) -> Generated {
             let mut anyn = false;
             for l in 0..total as u32 {
                 if rng.chance(1, 2) {
-                    nm.append(l, &format!("l{}_{}", l, rand_name(rng)));
+                    // (an empty name now and then, as some producers write them: it is a name)
+                    if rng.chance(1, 12) {
+                        nm.append(l, "");
+                    } else {
+                        nm.append(l, &format!("l{}_{}", l, rand_name(rng)));
+                    }
                     anyn = true;
                 }
             }
